@@ -11,9 +11,12 @@ LIT = {0: '\n', 1: ' ', 2: '-', 3: 'N ', 4: ' R ', 5: 'spline cubic\n', 6: 'pair
        25: 'fcc', 26: 'bcc', 27: 'hcp'}
 FN_NAMES = {0: 'pair', 1: 'dipole', 2: 'quadrupole', 3: 'embed', 4: 'density', 5: 'density_fs'}
 
+LAST = {}     # the most recently created Recorder / output file (inspected after an injected fault)
+
 class Recorder(object):
     """global, ordered log of evaluations of user callables and of writes to the output file"""
     def __init__(self):
+        LAST['rec'] = self; LAST['file'] = None
         self.events = []     # ('eval', fn, kind, arg, value) | ('write', nbytes)
         self.fault_at = None # raise at the k-th evaluation (0-based) when set
         self.nevals = 0
@@ -47,7 +50,7 @@ def rec_fn(rec, fn, hasd=False):
 
 class RecFile(io.StringIO):
     def __init__(self, rec):
-        io.StringIO.__init__(self); self.rec = rec
+        io.StringIO.__init__(self); self.rec = rec; LAST['file'] = self
     def write(self, s):
         self.rec.events.append(('write', len(s)))
         return io.StringIO.write(self, s)
@@ -132,7 +135,7 @@ def render_and_compare(tokens, evs, labels, actual):
             ok = False
             if isq:
                 # same field, number equal to printing precision?
-                m = re.match(r'\s*[-+]?[0-9.]+(?:[eE][-+]?\d+)?', actual[pos:pos + len(s) + 3])
+                m = re.match(r'\s*[-+]?[0-9.]+(?:[eE][-+]?\d+)?', actual[pos:pos + 40])
                 if m:
                     try:
                         a = float(m.group(0)); qf = float(q)
